@@ -760,4 +760,29 @@ def exTerms : List RTerm :=
 example : String.ofList (n3Text tokR exTerms) = "( <e> _:d \"a\\\"\\\\\" \"0\"^^<i> \"\"@en )" := by decide
 example : readN3 lexR (n3Text tokR exTerms) = some exTerms := by decide
 
+/-! ### Round h (3): the second collection's other reads -/
+
+/-- Like `disjoint_second_keeps_list_partial`, for everything read through the other collection's own head:
+    `len(c2)`, `list(c2)`, `x in c2`, `c2[i]` (any integer index) and `c2.n3()` answer after an operation through
+    `h` exactly what they answered before. -/
+theorem disjoint_second_reads_partial :
+    ∀ (F : Term → Bool) (s : St) (h h2 : Term) (xs : List Term) (op : Op),
+      F h = false → F NIL = false → (∀ n, s.fresh ≤ n → F n = false) →
+      WF ⟨own F s.g, s.fresh⟩ h → asList (own F s.g) h = .ok xs → isSetAtLen xs.length op = false →
+      F h2 = true → (∀ c o, F c = true → (c, REST, o) ∈ s.g → F o = true ∨ o = NIL) →
+      len (step h s op).1.g h2 = len s.g h2 ∧ iter (step h s op).1.g h2 = iter s.g h2 ∧
+        (∀ x, contains (step h s op).1.g h2 x = contains s.g h2 x) ∧
+        (∀ i, getItem (step h s op).1.g h2 i = getItem s.g h2 i) ∧
+        ∀ tok, n3 tok (step h s op).1.g h2 = n3 tok s.g h2 := by
+  intro F s h h2 xs op hh hn hfr wf ha hok h2F hcl
+  obtain ⟨_, e2, e3, e4⟩ := coll_separation F s h op hh hn hfr wf
+  obtain ⟨_, ⟨ps', inv'⟩, _⟩ := coll_refines_partial ⟨own F s.g, s.fresh⟩ h xs op wf ha hok
+  obtain ⟨ps, inv⟩ := wf
+  have hst : (step h ⟨own F s.g, s.fresh⟩ op).1 = ⟨own F (step h s op).1.g, (step h s op).1.fresh⟩ := by
+    rw [e2, e3]
+  rw [hst] at inv'
+  obtain ⟨h1, h2, h3, h4⟩ := reads_second e4
+    (fun p hp => ⟨value_nil_of_own_inv hn inv hp, value_nil_of_own_inv hn inv' hp⟩) h2F hcl
+  exact ⟨h1, h2, h3, h4, fun tok => by simp only [n3, h2]⟩
+
 end RV.C19
